@@ -61,3 +61,7 @@ pub open spec fn res_is<T>(r: Result<T>, sr: SRes<T>) -> bool {
         SRes::Err(e) => r == Err::<Status<T>, Error>(e),
     }
 }
+
+// the empty string literal has no bytes
+pub axiom fn axiom_empty_str()
+    ensures str_bytes("") == Seq::<u8>::empty();
